@@ -154,6 +154,12 @@ func writeValue(buf *bytes.Buffer, v value) {
 		buf.WriteString(">")
 	case bigval:
 		fmt.Fprintf(buf, "<big %s>", v.t)
+	case *blobCell:
+		fmt.Fprintf(buf, "<blob %s %s ", v.codec, v.typ)
+		writeValue(buf, v.snap)
+		buf.WriteString(">")
+	case decCell:
+		fmt.Fprintf(buf, "<dec %s>", v.t)
 
 	case *omap:
 		buf.WriteString("map[")
